@@ -389,12 +389,16 @@ def shard(idx, n, tier):
     from hypothesis import given, settings, HealthCheck, Phase
     res = core.Result()
     nbase = (1600 if tier == "thorough" else 96) // n
+    from hypothesis import strategies as st
     opts = gen.Opts(max_modules=3, max_insts=3, wide=False)
+    # a bundle-heavy variant, so that faults behind bundle / anonymous-bundle connections are planted as often as scalar ones
+    opts_b = gen.Opts(min_modules=2, max_modules=3, max_insts=3, wide=False, bundle_port_pct=95, prims=False, arrays=True, pair_pct=5,
+                      slices=False, concats=False)
 
     @hypothesis.seed(env.subseed(PID, idx))
     @settings(max_examples=max(1, nbase), database=None, deadline=None, derandomize=False,
               suppress_health_check=list(HealthCheck), phases=[Phase.generate], report_multiple_bugs=False)
-    @given(gen.designs(opts))
+    @given(st.integers(0, 2).flatmap(lambda k: gen.designs(opts_b if k == 0 else opts)))
     def run(spec):
         try:
             model.flatten(spec)
